@@ -20,6 +20,9 @@
      ([uniq_contract], [argsort_contract] in Proofs/Cloud.v); [unique_sort] / [argsort_ins] are
      executable instances proved to satisfy the contracts.  The RNG is a parameter as well
      (a permutation for random_filter, a list of draws for voxel_filter(random=True)).
+   * The model follows the CURRENT source (after the fixes c6053fe, 104c370, 9117fdb); the previous
+     behaviour of the three repaired places is kept as [knn_filter_old], [voxel_filter_random_old],
+     [reproj_sum1_old] for the historical [_refuted] theorems only.
    * Raising (assert / IndexError / RuntimeError) = None.  Shape asserts on D >= pdim and on the
      tensor rank are preconditions (clouds are rectangular N x D lists), not modelled.
    * knn: only the documented default dim=-1, largest=False, sorted=True is modelled. *)
@@ -174,13 +177,30 @@ Definition nbr_filter (o : ord) (pd : nat) (pts : list (list F)) (nbr : Z) (r : 
 Definition random_filter (perm : list nat) (pts : list (list F)) (num : nat) : option (list (list F)) :=
   if (length pts <? num)%nat then None else gather pts (firstn num perm).
 
-(* ---------- knn_filter(points, k, pdim, radius, ord) -- both branches as coded:
+(* ---------- knn_filter(points, k, pdim, radius, ord), current source (after fix c6053fe):
      dist = pairwise distances (N x N)
-     if radius is not None:  rmask = (sum(dist <= radius, -1) - 1 >= k)
-                             points, dist = points[rmask], dist[rmask]      (rows only!)
-     _, idx = dist.topk(k+1, largest=False)      -- column indices into the UNFILTERED cloud
-     gather(points, idx).mean                    -- points is the FILTERED cloud            *)
+     _, idx = dist.topk(k+1, largest=False);  output = gather(points, idx).mean   -- on the FULL cloud
+     if radius is not None:  output = output[sum(dist <= radius, -1) - 1 >= k]              *)
+Definition knn_means (d : list F -> list F -> F) (pts : list (list F)) (k : nat) : option (list (list F)) :=
+  if (length pts <? S k)%nat then None      (* topk: selected index k out of range *)
+  else all_some (map (fun p =>
+         match gather pts (map snd (firstn (S k) (sort_row (map (d p) pts)))) with
+         | None => None
+         | Some nb => Some (vmean (length p) nb)
+         end) pts).
 Definition knn_filter_gen (d : list F -> list F -> F) (le_r : F -> F -> bool)
+    (pts : list (list F)) (k : nat) (radius : option F) : option (list (list F)) :=
+  match knn_means d pts k, radius with
+  | Some out, Some r =>
+      Some (mask_select out (map (fun p => (Z.of_nat k <=? countZ (fun m => le_r m r) (map (d p) pts) - 1)%Z) pts))
+  | res, _ => res
+  end.
+Definition knn_filter (o : ord) (pd : nat) := knn_filter_gen (pdist o pd) (meas_le o).
+
+(* HISTORY -- the source before c6053fe filtered the ROWS of points / dist by the radius mask first
+   and then gathered from the filtered cloud with column indices of the unfiltered one
+   (C18_knn_filter_radius_refuted): *)
+Definition knn_filter_old_gen (d : list F -> list F -> F) (le_r : F -> F -> bool)
     (pts : list (list F)) (k : nat) (radius : option F) : option (list (list F)) :=
   let rows := map (fun p => (p, map (d p) pts)) pts in
   let kept := match radius with
@@ -189,23 +209,13 @@ Definition knn_filter_gen (d : list F -> list F -> F) (le_r : F -> F -> bool)
                             (map (fun pr => (Z.of_nat k <=? countZ (fun m => le_r m r) (snd pr) - 1)%Z) rows)
               end in
   let src := map fst kept in
-  if (length pts <? S k)%nat then None      (* topk: selected index k out of range *)
+  if (length pts <? S k)%nat then None
   else all_some (map (fun pr =>
          match gather src (map snd (firstn (S k) (sort_row (snd pr)))) with
          | None => None
          | Some nb => Some (vmean (length (fst pr)) nb)
          end) kept).
-Definition knn_filter (o : ord) (pd : nat) := knn_filter_gen (pdist o pd) (meas_le o).
-
-(* the repaired radius branch (mask applied AFTER the gather): what the property asks for *)
-Definition knn_filter_fixed_gen (d : list F -> list F -> F) (le_r : F -> F -> bool)
-    (pts : list (list F)) (k : nat) (radius : option F) : option (list (list F)) :=
-  match knn_filter_gen d le_r pts k None, radius with
-  | Some out, Some r =>
-      Some (mask_select out (map (fun p => (Z.of_nat k <=? countZ (fun m => le_r m r) (map (d p) pts) - 1)%Z) pts))
-  | res, _ => res
-  end.
-Definition knn_filter_fixed (o : ord) (pd : nat) := knn_filter_fixed_gen (pdist o pd) (meas_le o).
+Definition knn_filter_old (o : ord) (pd : nat) := knn_filter_old_gen (pdist o pd) (meas_le o).
 
 (* ---------- voxel_filter *)
 Context {TrF : Trunc F}.
@@ -242,33 +252,35 @@ Definition voxel_filter (pts : list (list F)) (voxel : list F) : option (list (l
   let cnts := index_count (repeat zero M) inv in
   Some (map2 (fun s c => vscale_inv c s) sums cnts).
 
-(* random=True: a member of every occupied voxel.  [argsort] is torch.argsort, [draws] are the
-   values returned by the successive torch.randint(0, count_k) calls.
-     sorting_indices = argsort(inverse).squeeze();  sorted_points = points[sorting_indices, :]
-     selected = (draws + cumsum(counts) - counts).squeeze();  sorted_points[..., selected, :]
-   The two squeeze() calls turn a 1-element index tensor into a 0-dim one:
-     N = 1            -> sorted_points is 1-D and the final indexing raises IndexError
-     N > 1, 1 voxel   -> the result is a single row of shape (D,) instead of (1, D)  *)
-Inductive vres := VRaise | VRow (r : list F) | VRows (rs : list (list F)).
+(* random=True (current source, after fix 104c370): a member of every occupied voxel.
+   [argsort] is torch.argsort, [draws] are the values returned by the successive
+   torch.randint(0, count_k) calls.
+     sorting_indices = argsort(inverse);  sorted_points = points[sorting_indices, :]
+     selected = draws + cumsum(counts) - counts;  sorted_points[..., selected, :]          *)
 Variable argsort : list nat -> list nat.
 Fixpoint offsets (acc : nat) (counts : list nat) : list nat :=
   match counts with [] => [] | c :: t => acc :: offsets (acc + c) t end.
-Definition voxel_filter_random (draws : list nat) (pts : list (list F)) (voxel : list F) : vres :=
-  if negb (voxel_ok pts voxel) then VRaise else
+Definition voxel_filter_random (draws : list nat) (pts : list (list F)) (voxel : list F) : option (list (list F)) :=
+  if negb (voxel_ok pts voxel) then None else
   let '(keys, inv) := unique (vox_keys_of pts voxel) in
   let counts := map (fun k => length (filter (Nat.eqb k) inv)) (seq 0 (length keys)) in
   match gather pts (argsort inv) with
+  | None => None
+  | Some sorted_points => gather sorted_points (map2 Nat.add draws (offsets 0 counts))
+  end.
+(* HISTORY -- before 104c370 both index tensors went through .squeeze(), which turns a 1-element
+   index into a 0-dim one:  N = 1 -> sorted_points is 1-D and the final indexing raised IndexError;
+   N > 1 with one voxel -> a single row of shape (D,) instead of (1, D)
+   (C18_voxel_random_single_voxel_refuted) *)
+Inductive vres := VRaise | VRow (r : list F) | VRows (rs : list (list F)).
+Definition voxel_filter_random_old (draws : list nat) (pts : list (list F)) (voxel : list F) : vres :=
+  match voxel_filter_random draws pts voxel with
   | None => VRaise
-  | Some sorted_points =>
-    match gather sorted_points (map2 Nat.add draws (offsets 0 counts)) with
-    | None => VRaise
-    | Some sel =>
-      match pts, sel with
-      | [_], _ => VRaise
-      | _, [r] => VRow r
-      | _, _ => VRows sel
-      end
-    end
+  | Some sel => match pts, sel with
+                | [_], _ => VRaise
+                | _, [r] => VRow r
+                | _, _ => VRows sel
+                end
   end.
 End Voxel.
 
@@ -296,7 +308,9 @@ Definition pixel2point (K : list (list F)) (pix : list (list F)) (depth : list F
   else Some (map2 (pixel2point1 K) pix depth).
 (* reprojerr, reduction 'none' | 'sum' | 'norm' (squared for the exact route) *)
 Definition reproj_none1 tiny K T (p px : list F) : list F := vsubl (point2pixel1 tiny K T p) px.
-Definition reproj_sum1 tiny K T (p px : list F) : F := sumF (reproj_none1 tiny K T p px).
+(* 'sum' = L1 norm of the error (after fix 9117fdb); before it was the signed sum [reproj_sum1_old] *)
+Definition reproj_sum1 tiny K T (p px : list F) : F := sumF (map absF (reproj_none1 tiny K T p px)).
+Definition reproj_sum1_old tiny K T (p px : list F) : F := sumF (reproj_none1 tiny K T p px).
 Definition reproj_normsq1 tiny K T (p px : list F) : F := sumF (map (fun x => x * x) (reproj_none1 tiny K T p px)).
 Definition reproj_norm1 {TF : Trans F} tiny K T (p px : list F) : F := tsqrt (reproj_normsq1 tiny K T p px).
 Definition reprojerr_none tiny K T pts pix := map2 (reproj_none1 tiny K T) pts pix.
@@ -367,8 +381,8 @@ Definition vox_case := (list (list Q) * list Q * option (list (list Q)))%type.
 Definition vox_ok (tol : Q) (c : vox_case) : bool :=
   match c with (pts, voxel, out) => orows_close tol out (voxel_filter unique_sort pts voxel) end.
 Definition vox_bad (tol : Q) := bad_of (vox_ok tol).
-(* -- voxel_filter, random=True: shape as the faithful model predicts (0 raise, 1 single row,
-   2 rows) and row k is one of the input rows lying in the k-th occupied voxel *)
+(* -- voxel_filter, random=True: recorded shape (0 raise, 1 bare row, 2 rows) must be 2 on valid
+   input (0 iff the model raises) and row k is one of the input rows lying in the k-th occupied voxel *)
 Definition rowQ_eqb (a b : list Q) : bool := Qrow_close 0 a b.
 Definition voxr_case := (list (list Q) * list Q * nat * list (list Q))%type.
 Definition voxr_ok (c : voxr_case) : bool :=
@@ -376,18 +390,15 @@ Definition voxr_ok (c : voxr_case) : bool :=
     if negb (voxel_ok pts voxel) then Nat.eqb shape 0 else
     let ks := vox_keys_of pts voxel in
     let keys := fst (unique_sort ks) in
-    let expect := match pts, keys with [_], _ => 0 | _, [_] => 1 | _, _ => 2 end in
-    Nat.eqb shape expect &&
-    (Nat.eqb shape 0 ||
-     (Nat.eqb (length out) (length keys) &&
-      forallb (fun kr => existsb (fun pk => rowQ_eqb (fst pk) (snd kr) &&
-                                            match lexZ (snd pk) (fst kr) with Eq => true | _ => false end)
-                                 (combine pts ks))
-              (combine keys out)))
+    Nat.eqb shape 2 && Nat.eqb (length out) (length keys) &&
+    forallb (fun kr => existsb (fun pk => rowQ_eqb (fst pk) (snd kr) &&
+                                          match lexZ (snd pk) (fst kr) with Eq => true | _ => false end)
+                               (combine pts ks))
+            (combine keys out)
   end.
 Definition voxr_bad := bad_of voxr_ok.
 
-(* -- knn_filter (faithful, both branches) *)
+(* -- knn_filter (both branches) *)
 Definition knnf_case := (ord * nat * list (list Q) * nat * option Q * option (list (list Q)))%type.
 Definition knnf_ok (tol : Q) (c : knnf_case) : bool :=
   match c with (o, pd, pts, k, r, out) => orows_close tol out (knn_filter o pd pts k r) end.
